@@ -15,6 +15,12 @@
 // has to run to its last shell and its last block: get_closest_neighbour, the
 // radius protocol around an arbitrary position (generalngbiterator) and
 // around a stored point (ngbiterator), and the Octree searches.
+//
+// Dyadic tie lattices ("exact ties"): lattices whose coordinates, smoothing
+// lengths and radii are integer multiples of 2^-6, so that every operation of
+// the real code is exact; every half-lattice point is a query; the oracle is
+// integer arithmetic WITHOUT a tie band (r == h, node box distance == node
+// maximum, covered radius == search radius are decided, not skipped).
 #include "Octree.hpp"
 #include "PointLocations.hpp"
 #include "c16_march.hpp"
@@ -118,6 +124,21 @@ static std::vector< PSet > make_sets(bool thorough, long seed) {
       PSet three{"three-points-" + bn, b, {inbox(b, 0.1, 0.2, 0.3), inbox(b, 0.1, 0.2, 0.8), inbox(b, 0.9, 0.9, 0.05)}, smin / 2, false};
       v.push_back(two);
       v.push_back(three);
+    }
+    // pairs of distinct particles 2^-14, 2^-16 and 2^-18 box sides apart (tree
+    // depth 14, 16, 18: both sides of the "level > 15" duplicate test of
+    // OctreeNode::add_position, which must not move distinct positions) + loners
+    {
+      PSet dp{"deep-pairs-" + bn, b, {}, smin / 4, false};
+      const double base[3][3] = {{0.3, 0.3, 0.3}, {0.7, 0.2, 0.6}, {0.55, 0.8, 0.15}};
+      for (int i = 0; i < 3; ++i) {
+        dp.pts.push_back(inbox(b, base[i][0], base[i][1], base[i][2]));
+        const double e = std::ldexp(1., -14 - 2 * i);
+        dp.pts.push_back(inbox(b, base[i][0] + (i == 0 ? e : 0.), base[i][1] + (i == 1 ? e : 0.), base[i][2] + (i == 2 ? e : 0.)));
+      }
+      dp.pts.push_back(inbox(b, 0.1, 0.9, 0.9));
+      dp.pts.push_back(inbox(b, 0.9, 0.6, 0.4));
+      v.push_back(dp);
     }
     // generic (Kronecker lattice) sets whose sizes sit on both sides of the
     // rounding thresholds of the block count round(cbrt(N / num_per_cell)):
@@ -605,7 +626,8 @@ static Q dist2(const CoordinateVector<> &a, const CoordinateVector<> &b) {
 /// not more buckets than the grid has blocks, and an exhausted search must have
 /// delivered everything. Returns a description of the failure or "".
 template < typename IT >
-static std::string run_protocol(IT it, const std::vector< Q > &r /*distances to the centre*/, double rad, Q tol, size_t nblocks, bool &exhausted, bool &near_tol) {
+static std::string run_protocol(IT it, const std::vector< Q > &r /*distances to the centre*/, double rad, Q tol, size_t nblocks, bool &exhausted, bool &near_tol,
+                                double *stop_r2 = nullptr) {
   const size_t N = r.size();
   std::vector< int > cnt(N, 0);
   size_t buckets = 1;
@@ -622,6 +644,8 @@ static std::string run_protocol(IT it, const std::vector< Q > &r /*distances to 
   while (it.increase_range()) {
     if (!(it.get_max_radius2() < rad2)) {
       exhausted = false;
+      if (stop_r2)
+        *stop_r2 = it.get_max_radius2();
       break;
     }
     deliver();
@@ -847,6 +871,472 @@ static void check_static_helpers(int smax, uint64_t &cases, uint64_t &cubic_case
             }
 }
 
+
+// ===================================================================
+// Dyadic tie lattices: exact floating-point ties against an exact integer oracle
+// ===================================================================
+// Every coordinate, spacing, smoothing length and radius of this family is an
+// integer multiple of u = 2^-TIE_P, small enough that every difference, square,
+// sum of squares and h + radius the real code forms is exact in double, that
+// every octree node box (box sides halved per level) and every PointLocations
+// block (power-of-two block counts only) is exact, and that sqrt(r^2) <= h is
+// decided like r^2 <= h^2 (r^2 and h^2 are integers < 2^40 in units u^2: if
+// r^2 >= h^2 + 1 then sqrt(r^2) >= h (1 + 2^-41) > h, and sqrt is monotone and
+// exact on squares). The oracle is therefore integer arithmetic with NO tie
+// band: a particle is a neighbour iff r^2 <= (h + radius)^2, the inclusive
+// criterion Octree.hpp documents and evaluates on its leaves.
+static const int TIE_P = 6;
+static const int NTHPAT = 7;
+static const int NTRAD = 4;
+
+struct TSet {
+  std::string name;
+  int box;
+  int n[3];
+  int kind; // 0 vertex-centred, 1 cell-centred, 2 mixed (y cell-centred), 3 vertex-centred thinned, 4 two-level
+  int64_t A[3], L[3], d[3], q[3], dmin;
+  int nq[3];
+  std::vector< std::array< int64_t, 3 > > ip; // relative to the anchor, units u
+  std::vector< int64_t > own;                  // "own spacing" of a particle (h pattern 6)
+  bool ok;
+  bool thorough_only;
+};
+
+static const char *tkind_name(int k) {
+  static const char *n[5] = {"vertex", "centred", "mixed", "vertex-thinned", "two-level"};
+  return n[k];
+}
+
+static TSet make_tie_set(int box, int nx, int ny, int nz, int kind, bool thorough_only) {
+  TSet T;
+  T.box = box, T.kind = kind, T.n[0] = nx, T.n[1] = ny, T.n[2] = nz, T.ok = true, T.thorough_only = thorough_only;
+  T.name = fmt("tie:%s:%s:%dx%dx%d", bbox_name(box), tkind_name(kind), nx, ny, nz);
+  const Box<> b = bbox(box);
+  const double U = std::ldexp(1., TIE_P);
+  T.dmin = 0;
+  for (int d = 0; d < 3; ++d) {
+    T.A[d] = std::llround(b.get_anchor()[d] * U), T.L[d] = std::llround(b.get_sides()[d] * U);
+    if ((double)T.A[d] != b.get_anchor()[d] * U || (double)T.L[d] != b.get_sides()[d] * U || T.L[d] % T.n[d])
+      T.ok = false;
+    T.d[d] = T.L[d] / T.n[d];
+    const int64_t fine = kind == 4 ? T.d[d] / 2 : T.d[d];
+    if (fine % 2 || fine < 2 || (kind == 4 && (T.d[d] % 2 || T.n[d] < 2)))
+      T.ok = false;
+    T.q[d] = fine / 2;
+    T.nq[d] = T.ok ? (int)(T.L[d] / T.q[d]) : 0;
+    if (T.dmin == 0 || T.d[d] < T.dmin)
+      T.dmin = T.d[d];
+  }
+  if (!T.ok || T.dmin % 2)
+    return T.ok = false, T;
+  auto add = [&](int64_t x, int64_t y, int64_t z, int64_t own) {
+    T.ip.push_back({x, y, z});
+    T.own.push_back(own);
+  };
+  if (kind == 4) {
+    // coarse vertex-centred lattice everywhere except in the octant (upper x,
+    // lower y, upper z), which holds the vertex-centred lattice of half the
+    // spacing: node depth and "own" smoothing length differ by region
+    auto in_oct = [&](int64_t x, int64_t y, int64_t z) { return 2 * x >= T.L[0] && 2 * y < T.L[1] && 2 * z >= T.L[2]; };
+    for (int i = 0; i < 2 * nx; ++i)
+      for (int j = 0; j < 2 * ny; ++j)
+        for (int k = 0; k < 2 * nz; ++k) {
+          const int64_t x = i * T.d[0] / 2, y = j * T.d[1] / 2, z = k * T.d[2] / 2;
+          const bool fine = in_oct(x, y, z);
+          if (fine)
+            add(x, y, z, T.dmin / 2);
+          else if (i % 2 == 0 && j % 2 == 0 && k % 2 == 0)
+            add(x, y, z, T.dmin);
+        }
+  } else {
+    size_t idx = 0;
+    for (int i = 0; i < nx; ++i)
+      for (int j = 0; j < ny; ++j)
+        for (int k = 0; k < nz; ++k) {
+          if (kind == 3 && (i + 2 * j + 3 * k) % 4 == 1)
+            continue;
+          const int64_t x = i * T.d[0] + (kind == 1 ? T.d[0] / 2 : 0), y = j * T.d[1] + (kind == 1 || kind == 2 ? T.d[1] / 2 : 0),
+                        z = k * T.d[2] + (kind == 1 ? T.d[2] / 2 : 0);
+          add(x, y, z, T.d[idx % 3]);
+          ++idx;
+        }
+  }
+  return T;
+}
+
+/// the finite alphabet of tie lattices (per-axis point counts are powers of
+/// two so that the lattice planes are octree node faces; unequal counts and
+/// unequal box sides give three different spacings)
+static std::vector< TSet > make_tie_sets(bool thorough) {
+  std::vector< TSet > v;
+  auto add = [&](int box, int nx, int ny, int nz, std::initializer_list< int > kinds, bool th_only) {
+    for (int k : kinds)
+      if (thorough || !th_only) {
+        TSet T = make_tie_set(box, nx, ny, nz, k, th_only);
+        if (T.ok && T.ip.size() >= 2)
+          v.push_back(T);
+      }
+  };
+  // unit box: equal spacings
+  add(0, 1, 1, 2, {0}, false);
+  add(0, 2, 2, 2, {0, 1}, false);
+  add(0, 4, 4, 4, {0, 1, 2, 3, 4}, false);
+  add(0, 8, 8, 8, {0}, false);
+  add(0, 8, 8, 8, {1, 2, 3, 4}, true);
+  add(0, 16, 8, 4, {0, 3}, true);
+  // 4x2x1 box anchored at (-2, 1, 0.5)
+  add(1, 4, 2, 1, {0}, false);
+  add(1, 8, 4, 2, {0, 2, 3}, false); // cubic nodes, unequal counts
+  add(1, 2, 4, 8, {0}, false);       // spacings 2, 1/2, 1/8
+  add(1, 4, 4, 4, {4}, false);
+  add(1, 8, 8, 8, {0, 3, 4}, true);
+  add(1, 2, 4, 8, {1, 2, 3}, true);
+  // 1x3x2 box anchored at (0.25, -3, -1): sides 3 and 2, node sides 3/2^k
+  add(2, 4, 8, 2, {0, 1}, false);
+  add(2, 2, 8, 4, {4}, false);
+  add(2, 2, 2, 4, {0, 3}, false);
+  add(2, 8, 8, 8, {0, 2}, true);
+  add(2, 4, 16, 8, {0, 3}, true);
+  return v;
+}
+
+static int64_t tie_h(const TSet &T, int hpat, size_t i) {
+  switch (hpat) {
+  case 0:
+    return T.dmin; // one (smallest) lattice spacing
+  case 1:
+    return 2 * T.dmin;
+  case 2:
+    return T.dmin / 2; // reached from the half-lattice queries only
+  case 3:
+    return 5 * T.dmin; // 3-4-5 triangles: ties with node edges/corners
+  case 4:
+    return T.dmin * (1 + (int64_t)(i % 3)); // the tie particle need not hold the node maximum
+  case 5:
+    return (i % 2) ? 0 : T.dmin; // zero smoothing lengths: r = 0 = h on the particle itself
+  default:
+    return T.own[i]; // spacing of axis (i mod 3) / of the own refinement level
+  }
+}
+
+struct TStats {
+  uint64_t sets = 0, points = 0, queries = 0, oct_queries = 0, oct_members = 0, pair_lt = 0, pair_eq = 0, pair_gt = 0, pair_eq_zero = 0, node_lt = 0, node_eq = 0, node_gt = 0,
+           node_eq_holding_a_member = 0, node_eq_holding_a_tie_member = 0, closest = 0, closest_equidistant = 0, pl_objects = 0, pl_skipped = 0, pl_closest = 0,
+           pl_closest_equidistant = 0, pl_closest_on_block_face = 0, pl_pos_protocol = 0, pl_point_protocol = 0, pl_protocol_stopped_on_equality = 0,
+           pl_protocol_exhausted = 0, pl_protocol_generator_exactly_on_radius = 0, nontrivial = 0, list_size[4] = {0, 0, 0, 0};
+  void merge(const TStats &o) {
+    const uint64_t *a = &o.sets;
+    uint64_t *b = &sets;
+    for (size_t i = 0; i < sizeof(TStats) / sizeof(uint64_t); ++i)
+      b[i] += a[i];
+  }
+};
+
+static CoordinateVector<> tie_pos(const TSet &T, const int64_t p[3]) {
+  return CoordinateVector<>(std::ldexp((double)(T.A[0] + p[0]), -TIE_P), std::ldexp((double)(T.A[1] + p[1]), -TIE_P), std::ldexp((double)(T.A[2] + p[2]), -TIE_P));
+}
+
+static int64_t tie_r2(const TSet &T, bool periodic, const int64_t a[3], const std::array< int64_t, 3 > &b) {
+  int64_t r2 = 0;
+  for (int d = 0; d < 3; ++d) {
+    int64_t dx = a[d] > b[d] ? a[d] - b[d] : b[d] - a[d];
+    if (periodic && 2 * dx > T.L[d])
+      dx = T.L[d] - dx;
+    r2 += dx * dx;
+  }
+  return r2;
+}
+
+/// exact comparison of a returned index list with the integer oracle
+static bool compare_exact(const std::vector< uint_fast32_t > &got, const std::vector< char > &want, const std::vector< char > &tie, std::string &why, bool &on_tie) {
+  std::vector< int > cnt(want.size(), 0);
+  on_tie = false;
+  for (auto i : got) {
+    if (i >= want.size()) {
+      why = fmt("index %zu out of range", (size_t)i);
+      return false;
+    }
+    if (++cnt[i] > 1) {
+      why = fmt("index %zu returned twice", (size_t)i);
+      return false;
+    }
+  }
+  for (size_t i = 0; i < want.size(); ++i)
+    if ((want[i] != 0) != (cnt[i] != 0)) {
+      on_tie = tie[i];
+      why = fmt("index %zu %s%s", i, want[i] ? "is missing" : "should not be returned", tie[i] ? " (distance exactly equal to the limit)" : "");
+      return false;
+    }
+  return true;
+}
+
+/// walk the whole real tree (no pruning) for one query and record on which
+/// side of the opening criterion every internal node lies (real Box arithmetic,
+/// exact for this family); returns true if the subtree holds a true neighbour
+static bool tie_walk(const OctreeNode *n, const Box<> &box, bool periodic, const CoordinateVector<> &c, const std::vector< char > &want, const std::vector< char > &tie, TStats &st,
+                     bool root, bool &holds_tie) {
+  if (n->is_leaf()) {
+    holds_tie = tie[n->get_index()];
+    return want[n->get_index()];
+  }
+  bool any = false;
+  holds_tie = false;
+  for (int i = 0; i < 8; ++i)
+    if (n->_children[i]) {
+      bool t = false;
+      any |= tie_walk(n->_children[i], box, periodic, c, want, tie, st, false, t);
+      holds_tie |= t;
+    }
+  if (!root) { // the searches start below the root
+    const double r = periodic ? box.periodic_distance(n->get_box(), c) : n->get_box().get_distance(c);
+    const double v = n->get_variable();
+    if (r < v)
+      ++st.node_lt;
+    else if (r > v)
+      ++st.node_gt;
+    else {
+      ++st.node_eq;
+      st.node_eq_holding_a_member += any;
+      st.node_eq_holding_a_tie_member += holds_tie;
+    }
+  }
+  return any;
+}
+
+static void check_tie_octree(const TSet &T, bool periodic, int hpat, Result &R, TStats &st) {
+  const size_t N = T.ip.size();
+  const Box<> box = bbox(T.box);
+  std::vector< CoordinateVector<> > pts(N), orig;
+  std::vector< double > hs(N), big(N);
+  std::vector< int64_t > hi(N);
+  for (size_t i = 0; i < N; ++i) {
+    pts[i] = tie_pos(T, T.ip[i].data());
+    hi[i] = tie_h(T, hpat, i);
+    hs[i] = std::ldexp((double)hi[i], -TIE_P);
+    big[i] = 64. + hs[i];
+  }
+  orig = pts;
+  const std::string P = periodic ? ":periodic" : "";
+  Octree tree(pts, box, periodic);
+  tree.set_auxiliaries(big, Octree::max< double >); // history of length 2, see check_octree
+  tree.set_auxiliaries(hs, Octree::max< double >);
+  for (size_t i = 0; i < N; ++i)
+    if (pts[i].x() != orig[i].x() || pts[i].y() != orig[i].y() || pts[i].z() != orig[i].z())
+      R.violation("C16:octree:moved-a-position", fmt("set %s: position %zu was changed by the tree construction", T.name.c_str(), i),
+                  fmt("{\"set\": \"%s\", \"what\": \"octree\"}", T.name.c_str()));
+  const int64_t radii[NTRAD] = {0, T.dmin / 2, T.dmin, 3 * T.dmin};
+  // query centres: the complete half-lattice of the finest spacing (lattice
+  // points, edge/face/cell centres = commensurate Cartesian cell centres)
+  std::vector< std::array< int64_t, 3 > > qs;
+  for (int i = 0; i < T.nq[0]; ++i)
+    for (int j = 0; j < T.nq[1]; ++j)
+      for (int k = 0; k < T.nq[2]; ++k)
+        qs.push_back({i * T.q[0], j * T.q[1], k * T.q[2]});
+  std::vector< int64_t > r2(N);
+  std::vector< char > want(N), tie(N);
+  std::string why;
+  bool on_tie = false;
+  for (size_t iq = 0; iq < qs.size(); ++iq) {
+    const CoordinateVector<> c = tie_pos(T, qs[iq].data());
+    const std::string more = fmt("\"periodic\": %d, \"hpattern\": %d, \"centre\": \"%a %a %a\"", (int)periodic, hpat, c.x(), c.y(), c.z());
+    const std::string rp = fmt("{\"set\": \"%s\", \"what\": \"tie-lattice\", %s}", T.name.c_str(), more.c_str());
+    int64_t r2min = -1;
+    uint64_t nmin = 0;
+    for (size_t i = 0; i < N; ++i) {
+      r2[i] = tie_r2(T, periodic, qs[iq].data(), T.ip[i]);
+      if (r2min < 0 || r2[i] < r2min)
+        r2min = r2[i], nmin = 1;
+      else if (r2[i] == r2min)
+        ++nmin;
+    }
+    ++st.queries;
+    auto expect = [&](int64_t extra) {
+      bool any = false;
+      for (size_t i = 0; i < N; ++i) {
+        const int64_t lim = hi[i] + extra;
+        want[i] = r2[i] <= lim * lim;
+        tie[i] = r2[i] == lim * lim;
+        any |= want[i];
+        if (r2[i] < lim * lim)
+          ++st.pair_lt;
+        else if (tie[i])
+          ++st.pair_eq, st.pair_eq_zero += lim == 0;
+        else
+          ++st.pair_gt;
+      }
+      return any;
+    };
+    {
+      const bool any = expect(0);
+      const auto got = tree.get_ngbs(c);
+      ++st.oct_queries, st.oct_members += got.size(), st.nontrivial += any;
+      if (!compare_exact(got, want, tie, why, on_tie))
+        R.violation("C16:octree:get_ngbs" + P + (on_tie ? ":dyadic-lattice:exact-tie" : ":dyadic-lattice"),
+                    fmt("set %s h-pattern %d centre (%a,%a,%a) = (%.6g,%.6g,%.6g): %s (%zu returned)", T.name.c_str(), hpat, c.x(), c.y(), c.z(), c.x(), c.y(), c.z(), why.c_str(),
+                        got.size()),
+                    rp);
+      bool t = false;
+      tie_walk(tree._root, box, periodic, c, want, tie, st, true, t);
+    }
+    for (int ir = 0; ir < NTRAD; ++ir) {
+      const bool any = expect(radii[ir]);
+      const double rad = std::ldexp((double)radii[ir], -TIE_P);
+      const auto got = tree.get_ngbs_sphere(c, rad);
+      ++st.oct_queries, st.oct_members += got.size(), st.nontrivial += any;
+      if (!compare_exact(got, want, tie, why, on_tie))
+        R.violation("C16:octree:get_ngbs_sphere" + P + (on_tie ? ":dyadic-lattice:exact-tie" : ":dyadic-lattice"),
+                    fmt("set %s h-pattern %d centre (%a,%a,%a) radius %a: %s (%zu returned)", T.name.c_str(), hpat, c.x(), c.y(), c.z(), rad, why.c_str(), got.size()), rp);
+    }
+    // lists of centres: 3 centres (q, q+1, q+9) and a second list of q mod 3
+    // = 0, 1, 2 centres (the empty list has no neighbours)
+    auto run_list = [&](const std::vector< size_t > &li) {
+      std::vector< CoordinateVector<> > list;
+      std::fill(want.begin(), want.end(), 0);
+      std::vector< char > tie_only(N, 1);
+      bool any = false;
+      for (size_t l : li) {
+        list.push_back(tie_pos(T, qs[l].data()));
+        for (size_t i = 0; i < N; ++i) {
+          const int64_t rr = tie_r2(T, periodic, qs[l].data(), T.ip[i]);
+          if (rr <= hi[i] * hi[i])
+            want[i] = 1, any = true;
+          if (rr < hi[i] * hi[i])
+            tie_only[i] = 0;
+        }
+      }
+      for (size_t i = 0; i < N; ++i)
+        tie[i] = want[i] && tie_only[i]; // a member only through exact ties
+      const auto got = tree.get_ngbs_list(list);
+      ++st.oct_queries, st.oct_members += got.size(), st.nontrivial += any;
+      ++st.list_size[li.size()];
+      if (!compare_exact(got, want, tie, why, on_tie))
+        R.violation("C16:octree:get_ngbs_list" + P + (on_tie ? ":dyadic-lattice:exact-tie" : ":dyadic-lattice"),
+                    fmt("set %s h-pattern %d list of %zu centres starting at (%a,%a,%a): %s", T.name.c_str(), hpat, li.size(), c.x(), c.y(), c.z(), why.c_str()), rp);
+    };
+    if (iq + 9 < qs.size()) {
+      run_list({iq, iq + 1, iq + 9});
+      switch (iq % 3) {
+      case 0:
+        run_list({});
+        break;
+      case 1:
+        run_list({iq});
+        break;
+      default:
+        run_list({iq + 9, iq});
+      }
+    }
+    if (hpat == 0) {
+      const uint_fast32_t got = tree.get_closest_ngb(c);
+      ++st.oct_queries, ++st.closest, ++st.nontrivial;
+      st.closest_equidistant += nmin > 1;
+      if (got >= N || r2[got] != r2min)
+        R.violation("C16:octree:get_closest_ngb" + P + ":dyadic-lattice",
+                    fmt("set %s centre (%a,%a,%a): returned %zu at distance^2 %lld u^2, the closest is at %lld u^2 (u = 2^-%d, %" PRIu64 " equidistant)", T.name.c_str(), c.x(), c.y(),
+                        c.z(), (size_t)got, got < N ? (long long)r2[got] : -1LL, (long long)r2min, TIE_P, nmin),
+                    rp);
+    }
+  }
+}
+
+/// PointLocations on a tie lattice: only block counts that are powers of two
+/// (exact block faces); zero tolerance everywhere
+static void check_tie_pointlocations(const TSet &T, unsigned npc, Result &R, TStats &st, bool all_points) {
+  const size_t N = T.ip.size();
+  const Box<> box = bbox(T.box);
+  std::vector< CoordinateVector<> > pts(N);
+  for (size_t i = 0; i < N; ++i)
+    pts[i] = tie_pos(T, T.ip[i].data());
+  PointLocations pl(pts, npc, box);
+  const size_t s = pl._grid.size();
+  int64_t bs[3];
+  bool exact = s >= 1 && (s & (s - 1)) == 0;
+  for (int d = 0; d < 3 && exact; ++d) {
+    exact = T.L[d] % (int64_t)s == 0;
+    bs[d] = T.L[d] / (int64_t)s;
+  }
+  if (!exact) {
+    ++st.pl_skipped;
+    return;
+  }
+  ++st.pl_objects;
+  const size_t nblocks = s * s * s;
+  const std::string rp0 = fmt("{\"set\": \"%s\", \"what\": \"tie-lattice-pointlocations\", \"num_per_cell\": %u, \"blocks_per_axis\": %zu}", T.name.c_str(), npc, s);
+  std::set< int64_t > radset = {T.dmin / 2, T.dmin, 2 * T.dmin, 5 * T.dmin, std::min(bs[0], std::min(bs[1], bs[2])), 2 * std::max(bs[0], std::max(bs[1], bs[2])),
+                                3 * T.d[0] / 2};
+  const double scale = std::ldexp(1., -TIE_P);
+  std::vector< Q > r(N);
+  std::vector< int64_t > r2(N);
+  auto protocols = [&](const int64_t c[3], bool stored, size_t index) {
+    const CoordinateVector<> cp = tie_pos(T, c);
+    for (size_t i = 0; i < N; ++i) {
+      r2[i] = tie_r2(T, false, c, T.ip[i]);
+      r[i] = sqrtl((Q)r2[i]) * scale;
+    }
+    for (int64_t radi : radset) {
+      const double rad = radi * scale;
+      bool exhausted = false, near = false;
+      double stop = -1.;
+      const std::string why = stored ? run_protocol(pl.get_neighbours(index), r, rad, 0.L, nblocks, exhausted, near, &stop)
+                                     : run_protocol(PointLocations::generalngbiterator(pl, cp), r, rad, 0.L, nblocks, exhausted, near, &stop);
+      ++(stored ? st.pl_point_protocol : st.pl_pos_protocol);
+      ++st.nontrivial;
+      st.pl_protocol_exhausted += exhausted;
+      st.pl_protocol_stopped_on_equality += stop == rad * rad;
+      for (size_t i = 0; i < N; ++i)
+        if (r2[i] == radi * radi) {
+          ++st.pl_protocol_generator_exactly_on_radius;
+          break;
+        }
+      if (!why.empty())
+        R.violation(stored ? "C16:pointlocations:radius-search:dyadic-lattice" : "C16:pointlocations:position-radius-search:dyadic-lattice",
+                    fmt("set %s num_per_cell %u (%zu^3 blocks) %s (%a,%a,%a) radius %a: %s", T.name.c_str(), npc, s, stored ? "stored generator at" : "position", cp.x(), cp.y(),
+                        cp.z(), rad, why.c_str()),
+                    rp0);
+    }
+  };
+  for (int i = 0; i < T.nq[0]; ++i)
+    for (int j = 0; j < T.nq[1]; ++j)
+      for (int k = 0; k < T.nq[2]; ++k) {
+        const int64_t c[3] = {i * T.q[0], j * T.q[1], k * T.q[2]};
+        const CoordinateVector<> cp = tie_pos(T, c);
+        int64_t r2min = -1;
+        uint64_t nmin = 0;
+        for (size_t m = 0; m < N; ++m) {
+          const int64_t rr = tie_r2(T, false, c, T.ip[m]);
+          if (r2min < 0 || rr < r2min)
+            r2min = rr, nmin = 1;
+          else if (rr == r2min)
+            ++nmin;
+        }
+        const uint_fast32_t got = pl.get_closest_neighbour(cp);
+        ++st.pl_closest, ++st.nontrivial;
+        st.pl_closest_equidistant += nmin > 1;
+        st.pl_closest_on_block_face += c[0] % bs[0] == 0 || c[1] % bs[1] == 0 || c[2] % bs[2] == 0;
+        const int64_t rg = got < N ? tie_r2(T, false, c, T.ip[got]) : -1;
+        if (rg != r2min)
+          R.violation("C16:pointlocations:get_closest_neighbour:dyadic-lattice",
+                      fmt("set %s num_per_cell %u (%zu^3 blocks) position (%a,%a,%a): returned %zu at distance^2 %lld u^2, the closest is at %lld u^2 (u = 2^-%d)", T.name.c_str(), npc, s,
+                          cp.x(), cp.y(), cp.z(), (size_t)got, (long long)rg, (long long)r2min, TIE_P),
+                      rp0);
+        // the radius protocol from every half-lattice point (all_points: sets
+        // with <= 512 query centres in the quick tier, <= 4096 in the thorough
+        // tier) or from every second half-lattice point per axis (the lattice
+        // points themselves for the vertex-centred kinds: block corners)
+        if (all_points || (i % 2 == 0 && j % 2 == 0 && k % 2 == 0))
+          protocols(c, false, 0);
+      }
+  for (size_t m = 0; m < N; ++m)
+    protocols(T.ip[m].data(), true, m);
+}
+
+struct TTask {
+  size_t set;
+  int mode; // 0 octree, 1 pointlocations
+  int periodic, hpat;
+  unsigned npc;
+};
+
 /// run f in a forked child; returns 0 ok, 1 wrong answer, 2 crashed/aborted
 template < typename F > static int in_child(F f) {
   fflush(nullptr);
@@ -1017,8 +1507,79 @@ int main(int argc, char **argv) {
     if (cut)
       R.hit_deadline(fmt("block-clustered sets: %" PRIu64 " of %zu sets run", bst.sets, todo.size()));
   }
-  R.evaluations = st.octree_queries + st.pl_closest + st.pl_radius + bst.closest + bst.pos_protocol + bst.point_protocol + bst.oct.octree_queries + sh_cases;
-  R.nontrivial = st.nontrivial + bst.closest + bst.pos_protocol + bst.point_protocol + bst.oct.nontrivial + sh_cases;
+  // ---------------- dyadic tie lattices (exact ties, exact integer oracle)
+  TStats tst;
+  std::vector< TSet > tsets = make_tie_sets(th);
+  uint64_t tie_tasks = 0;
+  {
+    std::vector< TTask > tasks;
+    for (size_t i = 0; i < tsets.size(); ++i) {
+      if (!only.empty() && tsets[i].name != only)
+        continue;
+      ++tst.sets;
+      tst.points += tsets[i].ip.size();
+      for (int periodic = 0; periodic < 2; ++periodic)
+        for (int hpat = 0; hpat < NTHPAT; ++hpat)
+          tasks.push_back({i, 0, periodic, hpat, 0u});
+      std::set< unsigned > npcs = {1u, 2u, 4u, 8u, 64u, (unsigned)tsets[i].ip.size()};
+      for (unsigned npc : npcs)
+        tasks.push_back({i, 1, 0, 0, npc});
+    }
+    // big sets first
+    std::stable_sort(tasks.begin(), tasks.end(), [&](const TTask &a, const TTask &b) {
+      const TSet &A_ = tsets[a.set], &B_ = tsets[b.set];
+      return A_.ip.size() * A_.nq[0] * A_.nq[1] * A_.nq[2] > B_.ip.size() * B_.nq[0] * B_.nq[1] * B_.nq[2];
+    });
+    tie_tasks = tasks.size();
+    bool cut = false;
+    uint64_t done = 0;
+#pragma omp parallel
+    {
+      TStats mine;
+      uint64_t mydone = 0;
+#pragma omp for schedule(dynamic, 1) nowait
+      for (size_t t = 0; t < tasks.size(); ++t) {
+        if (cut)
+          continue;
+        if (R.out_of_time()) {
+#pragma omp critical(c16cut)
+          cut = true;
+          continue;
+        }
+        const TTask &k = tasks[t];
+        const TSet &T = tsets[k.set];
+        sigjmp_buf jb;
+        const int why = sigsetjmp(jb, 1);
+        if (why) {
+          c16_jmp = nullptr;
+          R.violation(k.mode == 0 ? "C16:octree:abort:dyadic-lattice" : "C16:pointlocations:abort:dyadic-lattice",
+                      fmt("set %s %s: %s", T.name.c_str(), k.mode == 0 ? fmt("periodic %d h-pattern %d", k.periodic, k.hpat).c_str() : fmt("num_per_cell %u", k.npc).c_str(),
+                          why == 1 ? "cmac_error/abort" : "SIGSEGV/SIGBUS"),
+                      fmt("{\"set\": \"%s\", \"what\": \"tie-lattice\"}", T.name.c_str()));
+          continue;
+        }
+        c16_jmp = &jb;
+        if (k.mode == 0)
+          check_tie_octree(T, k.periodic != 0, k.hpat, R, mine);
+        else
+          check_tie_pointlocations(T, k.npc, R, mine, (size_t)T.nq[0] * T.nq[1] * T.nq[2] <= (th ? 4096u : 512u));
+        c16_jmp = nullptr;
+        ++mydone;
+      }
+#pragma omp critical(c16merge)
+      {
+        const uint64_t s0 = tst.sets, p0 = tst.points;
+        tst.merge(mine);
+        tst.sets = s0, tst.points = p0;
+        done += mydone;
+      }
+    }
+    if (cut)
+      R.hit_deadline(fmt("dyadic tie lattices: %" PRIu64 " of %zu (set x search configuration) tasks run", done, tasks.size()));
+  }
+  const uint64_t tie_evals = tst.oct_queries + tst.pl_closest + tst.pl_pos_protocol + tst.pl_point_protocol;
+  R.evaluations = tie_evals + st.octree_queries + st.pl_closest + st.pl_radius + bst.closest + bst.pos_protocol + bst.point_protocol + bst.oct.octree_queries + sh_cases;
+  R.nontrivial = tst.nontrivial + st.nontrivial + bst.closest + bst.pos_protocol + bst.point_protocol + bst.oct.nontrivial + sh_cases;
   R.rule = "every query of the lattice/point-based centre set on every point set x periodic flag x smoothing-length pattern "
            "(Octree) and x bucket size x box mode (PointLocations), compared member by member with a long double brute force; "
            "non-trivial = queries with at least one true neighbour (closest-neighbour queries always). Block-clustered sets: every "
@@ -1026,7 +1587,13 @@ int main(int argc, char **argv) {
            "lines and slabs of blocks, 4 space diagonals, 6 diagonal planes; 3 boxes with unequal sides) x every block as origin "
            "of the search x 2-5 positions per block: get_closest_neighbour, radius protocol around the position "
            "(generalngbiterator) and around stored generators (ngbiterator), Octree searches; all counted as non-trivial "
-           "(the generators are clustered, the searches have to leave the first shell)";
+           "(the generators are clustered, the searches have to leave the first shell). Dyadic tie lattices: every member of the "
+           "stated list of vertex-centred / cell-centred / mixed / thinned / two-level lattices with power-of-two point counts (all "
+           "coordinates, smoothing lengths and radii integer multiples of 2^-6) x periodic flag x 7 smoothing-length patterns x "
+           "EVERY point of the half-lattice as query centre: get_ngbs, get_ngbs_sphere (4 radii), get_ngbs_list, get_closest_ngb and, "
+           "for the power-of-two block counts PointLocations offers, get_closest_neighbour and both radius protocols from every "
+           "half-lattice point / every stored generator x 7 radii, against integer arithmetic with no tie band (non-trivial = "
+           "Octree queries with at least one true neighbour, all closest queries and protocols)";
   R.set("point_sets", (double)nsets);
   R.set("points_total", (double)npts);
   R.set("octree_queries", (double)st.octree_queries);
@@ -1063,12 +1630,55 @@ int main(int argc, char **argv) {
   R.set("blockset_octree_queries", (double)bst.oct.octree_queries);
   R.set("blockset_octree_exact_ties_accepted_either_way", (double)bst.oct.ties);
   R.set_str("blockset_thread_seconds_positions_points_octree_informational", fmt("%.1f %.1f %.1f", bst.t_positions, bst.t_points, bst.t_octree));
+  // dyadic tie lattices
+  R.set("tielattice_sets", (double)tst.sets);
+  R.set("tielattice_points_total", (double)tst.points);
+  R.set("tielattice_tasks_set_x_configuration", (double)tie_tasks);
+  R.set("tielattice_unit_exponent_p_all_quantities_multiples_of_2^-p", (double)TIE_P);
+  R.set("tielattice_smoothing_length_patterns", (double)NTHPAT);
+  R.set("tielattice_sphere_radii", (double)NTRAD);
+  {
+    std::string j = "[";
+    for (size_t i = 0; i < tsets.size(); ++i)
+      if (only.empty() || tsets[i].name == only)
+        j += fmt("%s\"%s (%zu points, %d query centres)\"", j.size() > 1 ? ", " : "", tsets[i].name.c_str(), tsets[i].ip.size(), tsets[i].nq[0] * tsets[i].nq[1] * tsets[i].nq[2]);
+    R.set_json("tielattice_set_list", j + "]");
+  }
+  R.set("tielattice_octree_query_centres", (double)tst.queries);
+  R.set("tielattice_octree_queries", (double)tst.oct_queries);
+  R.set("tielattice_octree_members_returned", (double)tst.oct_members);
+  R.set("tielattice_particle_query_pairs_distance_below_limit", (double)tst.pair_lt);
+  R.set("tielattice_particle_query_pairs_distance_exactly_equal_to_limit", (double)tst.pair_eq);
+  R.set("tielattice_particle_query_pairs_distance_exactly_equal_to_limit_zero", (double)tst.pair_eq_zero);
+  R.set("tielattice_particle_query_pairs_distance_above_limit", (double)tst.pair_gt);
+  R.set("tielattice_get_ngbs_node_box_distance_below_node_maximum", (double)tst.node_lt);
+  R.set("tielattice_get_ngbs_node_box_distance_exactly_equal_to_node_maximum", (double)tst.node_eq);
+  R.set("tielattice_get_ngbs_node_box_distance_equal_and_node_holds_a_true_neighbour", (double)tst.node_eq_holding_a_member);
+  R.set("tielattice_get_ngbs_node_box_distance_equal_and_node_holds_a_neighbour_at_exactly_its_smoothing_length", (double)tst.node_eq_holding_a_tie_member);
+  R.set("tielattice_get_ngbs_node_box_distance_above_node_maximum", (double)tst.node_gt);
+  R.set_str("tielattice_get_ngbs_list_queries_with_0_1_2_3_centres", fmt("%" PRIu64 " %" PRIu64 " %" PRIu64 " %" PRIu64, tst.list_size[0], tst.list_size[1], tst.list_size[2], tst.list_size[3]));
+  R.set("tielattice_octree_closest_queries", (double)tst.closest);
+  R.set("tielattice_octree_closest_queries_with_equidistant_closest_particles", (double)tst.closest_equidistant);
+  R.set("tielattice_pointlocations_objects_power_of_two_block_counts", (double)tst.pl_objects);
+  R.set("tielattice_pointlocations_configurations_skipped_block_count_not_a_power_of_two", (double)tst.pl_skipped);
+  R.set("tielattice_pointlocations_closest_queries", (double)tst.pl_closest);
+  R.set("tielattice_pointlocations_closest_queries_with_equidistant_closest_generators", (double)tst.pl_closest_equidistant);
+  R.set("tielattice_pointlocations_closest_queries_exactly_on_a_block_face", (double)tst.pl_closest_on_block_face);
+  R.set("tielattice_pointlocations_position_radius_searches", (double)tst.pl_pos_protocol);
+  R.set("tielattice_pointlocations_point_radius_searches", (double)tst.pl_point_protocol);
+  R.set("tielattice_pointlocations_radius_searches_stopped_with_covered_radius_exactly_equal_to_radius", (double)tst.pl_protocol_stopped_on_equality);
+  R.set("tielattice_pointlocations_radius_searches_with_a_generator_exactly_on_the_radius", (double)tst.pl_protocol_generator_exactly_on_radius);
+  R.set("tielattice_pointlocations_radius_searches_run_to_the_last_block", (double)tst.pl_protocol_exhausted);
   R.set("static_helper_cases", (double)sh_cases);
   R.set("static_helper_cases_equal_block_counts", (double)sh_cubic);
   R.set("static_helper_max_blocks_per_axis", (double)sh_max);
   R.set("static_helper_mismatches_for_unequal_block_counts_observation_only", (double)sh_noncubic_mismatch);
   R.sample(fmt("{\"sets\": %zu, \"example\": \"%s\"}", nsets, sets.empty() ? "" : sets[nsets / 2].name.c_str()));
   R.assumptions.push_back("positions are distinct and inside the half-open box; query centres are inside the box");
+  R.assumptions.push_back("a particle whose distance to the query is EXACTLY its smoothing length (+ radius) is a neighbour: Octree.hpp evaluates "
+                          "r <= h on every leaf of all three overlap searches, and a tree search has to return what that criterion gives for "
+                          "every particle (the pruning must be loss-free). Decided without tolerance only on the dyadic tie lattices, where "
+                          "every floating-point operation of the real code is exact; elsewhere |r - h| <= 8 eps (r + h) is accepted either way");
   R.assumptions.push_back("a PointLocations grid has the same number of blocks along every axis by construction (only the block side "
                           "lengths differ per axis: boxes 1x1x1, 4x2x1, 1x3x2); unequal block counts exist only as arguments of the static "
                           "helpers set_max_range/increase_indices and are reported as an observation, not a violation");
